@@ -5,6 +5,7 @@ import QmiModel.Lemmas.C16Err
 import QmiModel.Lemmas.C16Reval
 import QmiModel.Lemmas.C16Check
 import QmiModel.Gen.CfgDefs
+import QmiModel.Gen.CfgRoutes
 /-!
 # C16 — configuration loads strictly and round-trips
 
@@ -533,6 +534,64 @@ theorem createConfig_ok (τ : Ty) (rf : Str → Option (List Nat)) (ab : Str →
 /-- every other key of the document reaches the parser unchanged -/
 theorem setKey_keeps_other_keys (k k' : Str) (v : PV) (kvs : List (Str × PV)) (hne : k' ≠ k) :
     assoc k' (setKey k v kvs) = assoc k' kvs := assoc_setKey_other k k' v kvs hne
+
+/-! ## 6c'. `qmi.start(context_cfg=…)` and the other routes into the conversion -/
+
+/-- a failure of `qmi.start(context_cfg=…)` is the failure of `config_struct_from_dict` on one of the given items -/
+theorem context_cfg_error (ρ : RawTy) : ∀ (ctxs cfg : List (Str × PV)) (e : PyExc),
+    applyContextCfg ρ ctxs cfg = some (.error e) → ∃ k d, (k, d) ∈ cfg ∧ fromDictFull ρ d = some (.error e)
+  | _, [], e, h => by simp [applyContextCfg] at h
+  | ctxs, (k, d) :: rest, e, h => by
+    simp only [applyContextCfg] at h
+    cases hf : fromDictFull ρ d with
+    | none => simp [hf] at h
+    | some r =>
+      cases r with
+      | error e' => simp [hf] at h; subst h; exact ⟨k, d, by simp, hf⟩
+      | ok v =>
+        simp only [hf] at h
+        obtain ⟨k', d', hm, he⟩ := context_cfg_error ρ _ rest e h
+        exact ⟨k', d', by simp [hm], he⟩
+
+/-- when it succeeds, every given item converts -/
+theorem context_cfg_ok (ρ : RawTy) : ∀ (ctxs cfg out : List (Str × PV)),
+    applyContextCfg ρ ctxs cfg = some (.ok out) → ∀ k d, (k, d) ∈ cfg → ∃ v, fromDictFull ρ d = some (.ok v)
+  | _, [], _, _, k, d, hm => by simp at hm
+  | ctxs, (k0, d0) :: rest, out, h, k, d, hm => by
+    simp only [applyContextCfg] at h
+    cases hf : fromDictFull ρ d0 with
+    | none => simp [hf] at h
+    | some r =>
+      cases r with
+      | error e' => simp [hf] at h
+      | ok v =>
+        simp only [hf] at h
+        simp only [List.mem_cons, Prod.mk.injEq] at hm
+        rcases hm with ⟨rfl, rfl⟩ | hm
+        · exact ⟨v, hf⟩
+        · exact context_cfg_ok ρ _ rest out h k d hm
+
+/-- **context_cfg_only_config_error**: per-context dicts given to `qmi.start` are refused with nothing but a
+configuration error (which, by `error_names_item`, names the offending item) -/
+theorem context_cfg_only_config_error (n : Str) (fs : List RawField) (τ : Ty)
+    (hs : Supported (.struct n fs)) (hτ : elabTy (.struct n fs) = some τ)
+    (ctxs cfg : List (Str × PV)) (hd : ∀ k d, (k, d) ∈ cfg → ∃ kvs, d = .dict kvs) (e : PyExc)
+    (h : applyContextCfg (.struct n fs) ctxs cfg = some (.error e)) : ∃ c q, e = .config c q := by
+  obtain ⟨k, d, hm, he⟩ := context_cfg_error _ ctxs cfg e h
+  obtain ⟨kvs, rfl⟩ := hd k d hm
+  rw [from_dict_is_parse n fs kvs τ hs hτ] at he
+  simp only [Option.some.injEq] at he
+  exact only_config_error τ _ [] e he
+
+/-- **no_adhoc_constructor_calls** (regenerated from the source on every run): nowhere in `qmi/` is a `@configstruct`
+class built as `Cls(**data)` — every route that turns a dict into a structure goes through `config_struct_from_dict`
+(the constructor reports unknown keys with `TypeError` and names no item) -/
+theorem no_adhoc_constructor_calls : Gen.adhocConstructorCalls = [] := by decide
+
+/-- the two routes of `context_singleton` are the ones the model composes -/
+theorem singleton_routes :
+    ("qmi/core/context_singleton.py", "start", "CfgContext") ∈ Gen.conversionCalls ∧
+    ("qmi/core/context_singleton.py", "create_config_from_file", "CfgQmi") ∈ Gen.conversionCalls := by decide
 
 /-! ## 6d. Line terminators -/
 
